@@ -208,7 +208,11 @@ func C02Scenarios(tier string) []*h.Scenario {
 		}
 		return s
 	}
+	// a cool-down that is not a multiple of the scan interval (150 s: scans land 30 s before / after expiry)
+	off := mk("c02.setdesired.150s", false, false)
+	off.Groups[0].Opts.ScaleUpCoolDownPeriod = "150s"
 	return []*h.Scenario{
+		off,
 		mk("c02.setdesired", false, false),
 		mk("c02.setdesired.tainted", false, true),
 		mk("c02.fleet", true, false),
